@@ -100,13 +100,18 @@ fn wide(name: String, params: Value) -> Scenario {
             // range - goes stale when part of the set leaves)
             for &pid in order.iter().filter(|p| **p % 3 == 0) {
                 sys.apply(Ev::Deliver(pubrel_in(pid)));
-                sys.apply(Ev::Deliver(inbound(2, false, pid, &[sid], &format!("reused{}-{}", round, pid))));
                 if sys.dead {
                     return sys.report(ex, &[]);
                 }
             }
             for &pid in order.iter().filter(|p| **p % 3 != 0) {
                 sys.apply(Ev::Deliver(inbound(2, true, pid, &[sid], "once more")));
+                if sys.dead {
+                    return sys.report(ex, &[]);
+                }
+            }
+            for &pid in order.iter().filter(|p| **p % 3 == 0) {
+                sys.apply(Ev::Deliver(inbound(2, false, pid, &[sid], &format!("reused{}-{}", round, pid))));
                 if sys.dead {
                     return sys.report(ex, &[]);
                 }
